@@ -518,6 +518,22 @@ def check_hkdf(ck_ob, mod, label):
     return n + 3
 
 
+def _excludes_zero_plain(ex, p, lf):
+    """do the conditions of path p exclude that the (unbounded, non-wrapping) linear form lf is 0?"""
+    if lf is None or is_word(lf):
+        return False
+    v = ex.subst(p, lf)
+    cst = v.const()
+    if cst is not None:
+        return cst != 0
+    syms = [s_ for s_ in v if s_ != 1]
+    if len(syms) != 1 or v[syms[0]] != 1:
+        return False
+    lo, hi, excl = ex._range(p, Lf({syms[0]: 1}))
+    tgt = -v.get(1, 0)
+    return (lo is not None and tgt < lo) or (hi is not None and tgt > hi) or tgt in excl
+
+
 def _excludes_zero(ex, p, lf):
     """do the conditions of path p exclude that the linear form lf (a counter cell) is 0?"""
     if lf is None or is_word(lf):
@@ -633,7 +649,8 @@ def check_pbkdf2(ck_ob, mod, label):
         names = [e[2] for e in ev]
         if not names and p.end[0] in ("loop-entry",):
             continue
-        if p.end[0] == "ret" and names in ([], ["tinyjambu_clean"]) and not [k for k in mode.outs_of(p) if k[0][0] in ("arg", "hdp")]:
+        if p.end[0] == "ret" and names in ([], ["tinyjambu_clean"], ["tinyjambu_clean", "tinyjambu_clean"]) and all(e_[3][0].startswith("alloca") for e_ in ev) \
+                and not [k for k in mode.outs_of(p) if k[0][0] in ("arg", "hdp")]:
             # nothing (left) to generate: only the final wipe of U
             c("BLOCKS", p.eqs.get(rem) == 0 or not [e for e in p.events if e[0] == "cond"], "done", "the block loop ends when no output remains; U is wiped", "loop exit with remaining %s" % p.eqs.get(rem))
             seen.add("done")
@@ -935,6 +952,18 @@ def check_prng(ck_ob, mod, label):
         outs = mode.outs_of(p)
         curs = {k_[0] for k_ in outs if k_[0][0] in ("hdp", "arg") and k_[0] != ST}
         symw = [e_ for e_ in p.events if e_[0] in ("out-sym", "store-unknown", "load-unknown", "VARMEM")]
+        if not curs and not symw:
+            # an iteration that emits nothing: the class 'no bytes left' at the loop head.  It is unreachable when 'remaining != 0 at the
+            # head' is an inductive invariant (bottom-tested loop entered only with remaining != 0): then the class is skipped
+            zsyms = [s_ for s_, v_ in p.eqs.items() if isinstance(s_, tuple) and s_[0] == "hd" and v_ == 0]
+            okz = False
+            for zs in zsyms:
+                ent = [q for q in ps if q.end[0] == "loop-entry" and q.blocks and q.blocks[0] == 0]
+                back = [q for q in ps if q.end[0] == "backedge"]
+                if ent and back and all(_excludes_zero_plain(ex, q, q.env.get(("init", zs[1]))) for q in ent) and all(_excludes_zero_plain(ex, q, q.env.get(("back", zs[1]))) for q in back):
+                    okz = True
+            if okz:
+                continue
         if len(curs) != 1 or symw or any(not isinstance(k_[1], int) for k_ in outs if k_[0] in curs) or next(iter(curs))[0] != "hdp":
             raise Broken("tinyjambu_prng_generate: the output of a block is not written at constant offsets of one loop-carried output cursor "
                          "(objects %s, unresolved %s): index-based or otherwise unrecognised loop shape" % (sorted(curs, key=repr), [e_[0] for e_ in symw][:2]))
